@@ -29,7 +29,7 @@ def _cfg_text(maxlen, alpha, cfgname, emit, invs):
 
 
 def _join_parts(parts):
-    return " | ".join(" + ".join(":".join(t) for t in p) if p else "{}" for p in parts)
+    return " | ".join(" + ".join(" & ".join(t) for t in p) if p else "{}" for p in parts)
 
 
 def res_str(obs: dict) -> str:
@@ -38,7 +38,7 @@ def res_str(obs: dict) -> str:
     return {"REJECT": "R"}.get(obs["st"], obs["st"] + ":" + str(obs.get("cls", obs.get("shape", ""))))
 
 
-METHOD = {"a": "lookup", "b": "lookup", "c": "lookup", "x y": "lookup", "f(a)": "python", "1": "literal", "2": "literal",
+METHOD = {"a": "lookup", "b": "lookup", "c": "lookup", "x y": "lookup", "a:b": "lookup", "b:a": "lookup", "f(a)": "python", "1": "literal", "2": "literal",
           '"s"': "literal"}
 
 
@@ -121,11 +121,13 @@ def run(ctx: Ctx) -> None:
     if ctx.quick:
         _enumerated(ctx, 4, "core", "quick")
         _enumerated(ctx, 3, "full", "quick")
+        _enumerated(ctx, 5, "colon", "default")
     else:
         _enumerated(ctx, 5, "core", "quick")
         _enumerated(ctx, 4, "core", "all")
         _enumerated(ctx, 4, "full", "quick")
         _enumerated(ctx, 6, "signs", "quick")
+        _enumerated(ctx, 6, "colon", "quick")
     ctx.exhaustive = True
     from . import c01_trace
 
